@@ -29,3 +29,12 @@ package obase
 //@ func (li tagKeyFieldIndex) provideLabelSetTemplatePart(labelValues []string) string
 //@   requires 0 <= li && li < len(labelValues)
 //@   ensures result === labelValues[li]
+
+// Whether a tag template can be built over a list of key names is a function of the template text and that list (trusted:
+// the builder resolves every template variable among the key names, util/stringtemplate does the rest).
+//@ pure func tagbuilds(t int, keys []string) bool
+//@ func NewTagBuilder(tagTemplate string, keyNames []string) (*TagBuilder, error)
+//@   trusted
+//@   modifies nothing
+//@   ensures result.1 == nil <==> tagbuilds(key(tagTemplate), keyNames)
+//@   ensures result.1 == nil ==> result.0 != nil
